@@ -136,6 +136,15 @@ def instances(tier, seed):
                     h = Hsym[n % len(Hsym)]
                 add(fam.with_horizon(s, h), Cfg(method, N=N, M=M, intg=intg or 'rk', grid=g, degree=degree, scheme=scheme))
                 n += 1
+    # the horizon changed after a first transcription (set_t0/set_T on a transcribed OCP): every placement uses the times of the FINAL horizon
+    for mi, (method, intg, N, M) in enumerate((('DC', None, 2, 2), ('MS', 'rk', 2, 2), ('DC', None, 3, 1), ('SS', 'rk', 2, 1))):
+        s = copy.deepcopy(fam.ode_core()[mi % 3])
+        x1_ = X(min(1, s.nx - 1))
+        s.cons = [Con('<=', X(0), t + 3), Con('>=', x1_ * t, -4, grid='integrator' if method != 'SS' else None), Con('<=', at_tf(X(0)), tf)]
+        if method == 'DC':
+            s.cons.append(Con('<=', X(0) - t * x1_, 5, grid='integrator_roots'))
+        add(fam.with_horizon(s, (('num', Fr(1, 2)), ('num', Fr(2)))), Cfg(method, N=N, M=M, intg=intg or 'rk', grid=[fam.G_UNI, fam.G_GEO_LOC][mi % 2], degree=[2, 1][mi % 2], scheme='radau'),
+            rehorizon=(Fr(0), Fr(4)))
     # matrix-valued per-interval variable and parameter (element access inside constraints)
     for method, intg, N in (('MS', 'rk', 3), ('DC', None, 2), ('SS', 'rk', 2)):
         s = copy.deepcopy(fam.ode_core()[0])
@@ -198,7 +207,11 @@ def tautology(ch, term):
 
 def run(item):
     spec, cfg = item['spec'], item['cfg']
-    inst = Inst(spec, cfg, seed=item.get('seed', 0), poly=item.get('poly', False),
+    built = None
+    if item.get('rehorizon'):
+        from .common import rehorizon_built
+        built = rehorizon_built(spec, cfg, item['rehorizon'], poly=item.get('poly', False))
+    inst = Inst(spec, cfg, seed=item.get('seed', 0), poly=item.get('poly', False), built=built, solver=built is None,
                 extra_outputs=lambda b: [])
     ch = Checker(inst)
     viol = []
